@@ -160,6 +160,16 @@ def r3(ctx, F, rule, sfx):
     ev = [e for e in ip.events if e.callee == new['path']]
     if len(ev) != 1:
         raise AnalysisIncomplete('constructor calls in wrapping_nn_iter: %d' % len(ev))
+    # the stream handed to the builder is the search itself, mapped element-wise: nothing filtered, truncated or reordered
+    ret = I.frozen(ip.stack[0].cells[0].v) if ip.stack else None
+    rv, _ = (None, None)
+    ip_r = I.Interp(F, no_inline=[new['path']])
+    rv, _ = ip_r.call_body(w, [I.Sym(nf.sym_atom('rtree'), '&rstar::RTree<Generator>'), I.sym_vec3('q'), I.sym_vec3('W'), routes.dim_value(None)])
+    ch, src = stream_chain(I.frozen(rv))
+    names = [n for n, _ in ch]
+    okc = names in (['map', 'new'], ['new', 'map', 'new']) or (names[:1] == ['new'] and names[1:] == ['map', 'new'])
+    okc = [n for n in names if n not in ('new', 'root')] == ['map'] and names[:1] in (['map'], ['new']) and 'RTreeWrappingNearestNeighbourIter' in repr(I.frozen(rv))
+    ctx.check(rule, 'wrapped-stream-unfiltered' + sfx, okc, ' <- '.join(names), 'Box::new(search.map(item -> (id, shift))): every candidate the search yields reaches the builder, in order', where(w), key_extra='stream:%s' % ','.join(n for n in names if n not in ('new', 'map', 'root')))
     a = ev[0].fargs
     ok = repr(a[1]).replace(' ', '') == 'array{0:q.x,1:q.y,2:q.z}' and repr(a[2]).replace(' ', '') == 'array{0:W.x,1:W.y,2:W.z}' and repr(a[3]) == 'dim'
     ctx.check(rule, 'query-and-width-passed-componentwise' + sfx, ok, '%s %s' % (repr(a[1])[:50], repr(a[2])[:50]), '[q.x,q.y,q.z], [w.x,w.y,w.z]', where(w, ev[0].line), key_extra='ctor-args')
